@@ -68,10 +68,7 @@ def Mem.doctorStage1V (v : VacVariant) (m : Mem) (vac : Bool) (ftDrop ftA ftB : 
 
 /-- `Memvid::doctor(path, opts)` (see `Mem.doctor` in Core.lean) with the variant's vacuum -/
 def Mem.doctorV (v : VacVariant) (m : Mem) (vac rt rl rv : Bool) (ftDrop ftA ftB ftOpen : Nat) : Mem × Out :=
-  if (m.dropHandle ftDrop).pending.isEmpty then
-    ((((m.doctorStage1V v vac ftDrop ftA ftB).doctorStage2 (rt || rl || rv) rv ftB).dropHandle ftB).openFrom ftOpen, .ok)
-  else
-    ((m.dropHandle ftDrop).openFrom ftOpen, .ok)
+  ((((m.doctorStage1V v vac ftDrop ftA ftB).doctorStage2 (rt || rl || rv) rv ftB).dropHandle ftB).openFrom ftOpen, .ok)
 
 def stepV (v : VacVariant) (m : Mem) : Op → Mem × Out
   | .vacuum a b => m.vacuumV v a b
